@@ -24,15 +24,15 @@ m = dict(
     version=1,
     setup_cmd="./setup.sh",
     hooks=dict(
-        guard="kani (set by cargo-kani only) / dandavison_delta_verif",
-        enable="engine V reads /repo/src as text and needs no hook; engine K: `cargo kani` sets cfg(kani), which enables the #[cfg(kani)] harness modules and #[cfg_attr(kani, ...)] contract attributes",
+        guard="none (no hook is needed: no source change of /repo is guarded; cfg(kani) exists only inside the files generated under /verif/.work)",
+        enable="both engines read /repo/src as text on every run and verify the extracted functions in generated files (engine V: verus; engine K: standalone kani, which sets cfg(kani) for the generated file only)",
         baseline_off_cmd=BASE_CMD,
         source_commits=HOOK_COMMITS,
         add_only=True,
     ),
     engines=[
         dict(name="V", path="/verif/vx", serves_properties=sorted(CLAIMS), kind_free_text="Verus 0.2026.09.13 on function text extracted mechanically from /repo/src on every run, contracts in /verif/contracts"),
-        dict(name="K", path="/verif/kani", serves_properties=sorted(p for p in CLAIMS if "K" in CLAIMS[p].get("engine", "")), kind_free_text="Kani 0.68 function contracts / full-domain loop-free harnesses inside the real crate (cfg(kani) hooks)"),
+        dict(name="K", path="/verif/vx/kani.py", serves_properties=sorted(p for p in CLAIMS if "K" in CLAIMS[p].get("engine", "")), kind_free_text="Kani 0.68 function contracts (proof_for_contract) on loop-free functions extracted mechanically from /repo/src on every run (contracts/K*.rs); a counterexample from CBMC's trace is replayed on the extracted function compiled with rustc"),
     ],
     checks=checks,
     notes="Exit codes: 0 all obligations discharged; 1 + VIOLATION line(s) when a ledgered obligation fails; 2 (no VIOLATION line) when the verifier could not decide (anchor lost, unsupported construct, resource limit). See DESIGN.md.",
